@@ -352,7 +352,9 @@ func (fi *fileInstr) run() {
 		case *ast.CallExpr:
 			fi.rewriteCall(x)
 		case *ast.GoStmt:
-			report.UnmodelledSync = append(report.UnmodelledSync, fi.where(x.Pos())+": go statement")
+			if !fi.rewriteGo(x) {
+				report.UnmodelledSync = append(report.UnmodelledSync, fi.where(x.Pos())+": go statement (function with results, variadic or more than 4 parameters)")
+			}
 		case *ast.SendStmt:
 			report.UnmodelledSync = append(report.UnmodelledSync, fi.where(x.Pos())+": channel send")
 		case *ast.SelectStmt:
@@ -517,6 +519,30 @@ var syncMethods = map[string]string{
 	"sync.RWMutex.Lock": "RWLock", "sync.RWMutex.Unlock": "RWUnlock", "sync.RWMutex.RLock": "RWRLock", "sync.RWMutex.RUnlock": "RWRUnlock",
 	"sync.Once.Do":  "OnceDo",
 	"sync.Pool.Get": "PoolGet", "sync.Pool.Put": "PoolPut",
+	"sync.WaitGroup.Add": "WGAdd", "sync.WaitGroup.Done": "WGDone", "sync.WaitGroup.Wait": "WGWait",
+}
+
+// rewriteGo turns `go f(a, b)` into `simrt.Go2(f, a, b)`: the function value and the
+// arguments are still evaluated by the spawning goroutine at the go statement; the call
+// becomes a simulated task (or, outside the scheduler, is run when the spawner waits).
+func (fi *fileInstr) rewriteGo(g *ast.GoStmt) bool {
+	call := g.Call
+	tv, ok := fi.pkg.TypesInfo.Types[call.Fun]
+	if !ok || tv.IsType() || tv.IsBuiltin() {
+		return false
+	}
+	sig, ok := tv.Type.Underlying().(*types.Signature)
+	if !ok || sig.Results().Len() != 0 || sig.Variadic() || sig.Params().Len() > 4 || sig.Params().Len() != len(call.Args) {
+		return false
+	}
+	fi.replace(g.Pos(), call.Fun.Pos(), fmt.Sprintf("simrt.Go%d(", len(call.Args)))
+	if len(call.Args) == 0 {
+		fi.replace(call.Lparen, call.Rparen+1, ")")
+	} else {
+		fi.replace(call.Lparen, call.Lparen+1, ", ")
+	}
+	report.SyncSites++
+	return true
 }
 
 func (fi *fileInstr) rewriteCall(call *ast.CallExpr) {
@@ -590,13 +616,13 @@ func (fi *fileInstr) rewriteCall(call *ast.CallExpr) {
 			report.UnmodelledSync = append(report.UnmodelledSync, fi.where(call.Pos())+": "+key+" on a receiver that is not a plain path")
 			return
 		}
-		if obj.Name() == "Do" || obj.Name() == "Put" {
+		if obj.Name() == "Do" || obj.Name() == "Put" || obj.Name() == "Add" {
 			fi.replace(call.Pos(), call.Lparen+1, "simrt."+syncMethods[key]+"("+ptr+", ")
 		} else {
 			fi.replace(call.Pos(), call.Lparen+1, "simrt."+syncMethods[key]+"("+ptr)
 		}
 		report.SyncSites++
-	case named.Obj().Pkg().Path() == "sync" && (named.Obj().Name() == "Cond" || named.Obj().Name() == "WaitGroup"):
+	case named.Obj().Pkg().Path() == "sync" && named.Obj().Name() == "Cond":
 		report.UnmodelledSync = append(report.UnmodelledSync, fi.where(call.Pos())+": "+key)
 	}
 }
